@@ -111,6 +111,8 @@ def file_history(ctx, tier):
             ('main, same mtime', main, None, None),
             ('blob, same mtime', blob, bytes([1, 2, 3, 4]), bytes([9, 8, 7, 6])),
             ('broken include repaired', inc, 'VALUE = 0x44 +\n', 'VALUE = 0x44 \n'),
+            # a call that FAILS while an included file is being read (its own nested include is missing), then the file appears
+            ('failing nested include then the file appears', os.path.join(root, 'late.asm'), None, 'LATE = 9\n'),
         ]
         main_a = 'include consts.asm\nstart:\n    addi x5, x0, VALUE\ninclude_bytes blob.bin\n    j start\n'
         main_b = 'include consts.asm\nstart:\n    addi x6, x0, VALUE\ninclude_bytes blob.bin\n    j start\n'
@@ -120,6 +122,26 @@ def file_history(ctx, tier):
             write(main, main_a)
             if path == main:
                 before, after = main_a, main_b
+            if before is None:
+                # consts.asm includes late.asm, which does not exist during the first call
+                if os.path.exists(path):
+                    os.unlink(path)
+                write(inc, 'VALUE = 0x11\ninclude late.asm\n')
+                rc = R.RealCode()
+                first = strip(rc.assemble(main, cwd='/'))
+                write(path, after)
+                second = strip(rc.assemble(main, cwd='/'))
+                rc.close()
+                fresh_rc = R.RealCode()
+                fresh = strip(fresh_rc.assemble(main, cwd='/'))
+                fresh_rc.close()
+                os.unlink(path)
+                ctx.b_eval('purity', ('file-history', name), nontrivial=True, sample={'step': name, 'first': str(first)[:80], 'second': str(second)[:80]})
+                if second != fresh or first.get('ok') is not None:
+                    ctx.violation('bounded/purity/history', 'history-dependent:failed-include', 'after a call that failed inside an included file (%s), the corrected '
+                                  'tree gives %s in the same process, %s in a fresh one' % (str(first)[:80], str(second)[:100], str(fresh)[:100]),
+                                  {'step': name}, confirmed=True)
+                continue
             write(path, before)
             st = os.stat(path)
             rc = R.RealCode()
